@@ -166,6 +166,16 @@ where
             return try_lock!(self.inner.read(), else return None).downcast_raw(id);
         }
 
+        // The marker that identifies a subscriber with a per-subscriber filter
+        // is likewise only ever tested for presence. It has to be visible
+        // through the reload handle: otherwise the surrounding `Layered` takes
+        // the wrapped filter's max level hint for a global one and disables
+        // events its unfiltered neighbours want.
+        #[cfg(all(feature = "registry", feature = "std"))]
+        if crate::filter::is_psf_downcast_marker(id) {
+            return try_lock!(self.inner.read(), else return None).downcast_raw(id);
+        }
+
         None
     }
 }
